@@ -72,6 +72,28 @@ def run_hx_retry(ctx, domain, args, out_dir=None, timeout=3600, tries=3):
         ctx.log(f"hx {domain} was killed by a signal (rc={rc}); retry {k + 1}")
     return rc, out, d
 
+# Fixed designs replayed on every run: implementation = model = oracle is demanded (they pin down the
+# individual terms of the mask tests, whatever the seed generates).
+SENTINELS = [
+    # check_refered: partial write, read of another (unassigned) bit, wider write covering both -> reported
+    "R [i:8:0,v:2:0,o:1:0] k{A(;1,1,0)A(1:2;2,1,0)A(;1,3,0)}",
+    # … the same inside a branch
+    "R [i:8:0,v:2:0,o:1:0] k{A(;1,1,0)I(){A(1:2;2,1,0)A(;1,3,0)}{A(;2,1,0)}}",
+    # read of an already assigned bit, then a covering write -> not reported
+    "R [i:8:0,v:2:0,o:1:0] k{A(;1,1,0)A(1:1;2,1,0)A(;1,3,0)}",
+    # plain read-before-assign / self read
+    "R [i:8:0,v:2:0,o:2:0] k{A(1:3;2,3,0)A(;1,3,0)}",
+    "R [i:8:0,v:2:0] k{A(1:3;1,3,0)}",
+    # read and write of disjoint bits -> not reported
+    "R [i:8:0,v:2:0,o:1:0] k{A(1:2;2,1,0)A(;1,1,0)}",
+    # uncovered: base from an enclosing block, n-way
+    "U [i:8:0,v:2:0] k{A(;1,1,0)I(){C(;0)[{A(;1,3,0)}]{A(;1,2,0)}}{A(;1,2,0)}}",
+    "U [i:8:0,v:2:0] k{A(;1,2,0)I(){C(;0)[{A(;1,1,0)}]{}}{}}",
+    # multiple assignment: disjoint part-selects from two processes are fine, overlapping are not
+    "M [i:8:0,v:8:0] k{A(;1,f,0)};k{A(;1,f0,0)}",
+    "M [i:8:0,v:8:0] k{A(;1,1f,0)};k{A(;1,f0,0)}",
+]
+
 
 def parse_set(s):
     s = s.strip()
@@ -190,6 +212,26 @@ def run(ctx):
                 ctx.violation(f"assign: {WHAT[key]}: reported {got}, demanded {o}",
                               {"kind": "impl!=oracle", "op": line, "impl": got, "oracle": o, "what": WHAT[key],
                                "replay": f"{HX} assign --replay <file with the line>"}, key=key, kind="impl!=oracle")
+    # 1b. sentinels: no deviation allowed -----------------------------------------------------------
+    d = run_lines(ctx, SENTINELS, "sentinel")
+    if d is None:
+        ctx.violation("hx assign crashed on the sentinel designs", {"kind": "harness-crash"}, no_input=True, kind="model!=impl")
+    else:
+        imp = read_lines(f"{d}/impl.txt") or []
+        mod = read_lines(f"{d}/model.txt") or []
+        ora = read_lines(f"{d}/oracle.txt") or []
+        for i, line in enumerate(SENTINELS):
+            got, m, o = (x[i] if i < len(x) else "(missing)" for x in (imp, mod, ora))
+            ctx.cov["evaluations"] += 1
+            if got != m:
+                ctx.violation(f"assign sentinel `{line}`: implementation {got}, model {m}",
+                              {"kind": "model!=impl", "op": line, "impl": got, "model": m, "oracle": o,
+                               "replay": f"{HX} assign --replay <file with the line>"},
+                              no_input=(o == "?" or got == o), kind="model!=impl")
+            if o != "?" and got != o:
+                ctx.violation(f"assign sentinel `{line}`: implementation {got}, reference semantics {o}",
+                              {"kind": "impl!=oracle", "op": line, "impl": got, "oracle": o,
+                               "replay": f"{HX} assign --replay <file with the line>"}, kind="impl!=oracle")
     # 2. generated designs ------------------------------------------------------------------------
     n = tier_n(ctx, 2500, 60000)
     rc, out, d = run_hx_retry(ctx, "assign", ["--seed", ctx.seed, "--n", n], timeout=7200)
